@@ -25,6 +25,19 @@ so that the committed C12 translation does not move when that module is develope
                        a call site that passes an argument in the wrong position is translated as what Python does with
                        it, and a call that Python would reject (too many / duplicated / unknown arguments) is
                        untranslatable.
+  normalisation        before translation (`normalise=True`, the default) the function text is brought to a canonical form, so that
+                       behaviour-preserving clean-ups do not change the translation:
+                         * helper inlining: `helpers={name | "self.name": live function}` - a statement `x = helper(...)`,
+                           `a, b = helper(...)`, `return helper(...)` or a bare `helper(...)` whose call no rule matches is
+                           replaced by the helper's body (parameters bound with the LIVE signature, the helper's locals
+                           renamed, its final `return e` turned into the assignment); helpers with early returns are
+                           left alone (and are then untranslatable unless a rule knows them);
+                         * slice objects: a local bound once to `slice(a, b[, c])` and used only as a subscript is
+                           replaced, where it is used, by the slice `a:b[:c]` it stands for;
+                         * option dictionaries: a local bound once to `dict(k=v, ...)` / `{"k": v, ...}` and used only
+                           as `**local` in calls is expanded into the keywords it stands for;
+                       (a temporary is inlined only if it and every name its value mentions are bound exactly once, before
+                       its first use).
   parameter order      `check_params(fn, [names...])` : the leading positional parameters of a live function must be the
                        listed ones, in that order (for callees that are called positionally through a variable).
 """
@@ -497,10 +510,277 @@ class _EndTry(ast.stmt):
 
 
 class Rules2T(Rules2W):
-    def __init__(self, expr=(), stmt=(), catch=(), callees=None, **kw):
+    def __init__(self, expr=(), stmt=(), catch=(), callees=None, helpers=None, normalise=True, **kw):
         Rules2W.__init__(self, expr=expr, stmt=stmt, **kw)
         self.catch = set(catch) | set(CATCH_ALL)
         self.callees = dict(callees or {})
+        self.helpers = dict(helpers or {})
+        self.normalise = normalise
+
+
+# ---------------------------------------------------------------------------------------------- normalisation
+
+def _bound_names(fnode):
+    """{name: number of binding occurrences} in a function (parameters count once)"""
+    cnt = {}
+
+    def add(n):
+        cnt[n] = cnt.get(n, 0) + 1
+
+    def tgt(t):
+        if isinstance(t, ast.Name):
+            add(t.id)
+        elif isinstance(t, (ast.Tuple, ast.List)):
+            for e in t.elts:
+                tgt(e)
+        elif isinstance(t, ast.Starred):
+            tgt(t.value)
+    a = fnode.args
+    for x in a.posonlyargs + a.args + a.kwonlyargs + ([a.vararg] if a.vararg else []) + ([a.kwarg] if a.kwarg else []):
+        add(x.arg)
+    for n in ast.walk(fnode):
+        if isinstance(n, ast.Assign):
+            for t in n.targets:
+                tgt(t)
+        elif isinstance(n, (ast.AugAssign, ast.AnnAssign)):
+            tgt(n.target)
+        elif isinstance(n, (ast.For, ast.comprehension)):
+            tgt(n.target)
+        elif isinstance(n, ast.NamedExpr):
+            tgt(n.target)
+        elif isinstance(n, ast.ExceptHandler) and n.name:
+            add(n.name)
+        elif isinstance(n, (ast.With,)):
+            for it in n.items:
+                if it.optional_vars is not None:
+                    tgt(it.optional_vars)
+        elif isinstance(n, (ast.FunctionDef, ast.ClassDef)) and n is not fnode:
+            add(n.name)
+        elif isinstance(n, (ast.Import, ast.ImportFrom)):
+            for al in n.names:
+                add((al.asname or al.name).split(".")[0])
+    return cnt
+
+
+def _binding_line(fnode, name):
+    for n in ast.walk(fnode):
+        if isinstance(n, ast.Assign) and any(isinstance(t, ast.Name) and t.id == name for t in n.targets):
+            return n.lineno
+    return 0            # a parameter
+
+
+def _slice_of_call(call):
+    """the ast.Slice that `slice(...)` denotes, or None"""
+    if call.keywords or not 1 <= len(call.args) <= 3 or any(isinstance(x, ast.Starred) for x in call.args):
+        return None
+    args = [None if (isinstance(x, ast.Constant) and x.value is None) else x for x in call.args]
+    if len(args) == 1:
+        lo, hi, st = None, args[0], None
+    elif len(args) == 2:
+        lo, hi, st = args[0], args[1], None
+    else:
+        lo, hi, st = args
+    return ast.Slice(lower=lo, upper=hi, step=st)
+
+
+def _dict_keywords(value):
+    """[(key, value ast)] of `dict(k=v, ...)` / `{"k": v, ...}`, or None"""
+    if isinstance(value, ast.Call) and isinstance(value.func, ast.Name) and value.func.id == "dict" and not value.args \
+            and all(k.arg is not None for k in value.keywords):
+        return [(k.arg, k.value) for k in value.keywords]
+    if isinstance(value, ast.Dict) and all(isinstance(k, ast.Constant) and isinstance(k.value, str) and k.value.isidentifier()
+                                           for k in value.keys):
+        return [(k.value, v) for k, v in zip(value.keys, value.values)]
+    return None
+
+
+def inline_temporaries(fnode):
+    """slice objects and option dictionaries held in single-assignment locals are put back where they are used"""
+    cnt = _bound_names(fnode)
+    cands = {}
+    for n in ast.walk(fnode):
+        if isinstance(n, ast.Assign) and len(n.targets) == 1 and isinstance(n.targets[0], ast.Name):
+            t = n.targets[0].id
+            if cnt.get(t) != 1:
+                continue
+            kind = None
+            if isinstance(n.value, ast.Call) and isinstance(n.value.func, ast.Name) and n.value.func.id == "slice" \
+                    and cnt.get("slice", 0) == 0 and _slice_of_call(n.value) is not None:
+                kind = "slice"
+            elif _dict_keywords(n.value) is not None and cnt.get("dict", 0) == 0:
+                kind = "dict"
+            if kind is None:
+                continue
+            free = {x.id for x in ast.walk(n.value) if isinstance(x, ast.Name)} - {"slice", "dict"}
+            if all(cnt.get(x, 0) <= 1 and _binding_line(fnode, x) <= n.lineno for x in free if cnt.get(x, 0)):
+                cands[t] = (kind, n)
+    if not cands:
+        return fnode
+    # every use must be of the right kind and come after the binding
+    uses_ok = {t: True for t in cands}
+    parents = {}
+    for n in ast.walk(fnode):
+        for c in ast.iter_child_nodes(n):
+            parents[c] = n
+    for n in ast.walk(fnode):
+        if isinstance(n, ast.Name) and n.id in cands and isinstance(n.ctx, ast.Load):
+            kind, asg = cands[n.id]
+            par = parents.get(n)
+            ok = getattr(n, "lineno", 0) > asg.lineno
+            if kind == "slice":
+                gp = parents.get(par)
+                ok = ok and ((isinstance(par, ast.Subscript) and par.slice is n) or
+                             (isinstance(par, ast.Tuple) and isinstance(gp, ast.Subscript) and gp.slice is par))
+            else:
+                ok = ok and isinstance(par, ast.keyword) and par.arg is None and par.value is n
+            if not ok:
+                uses_ok[n.id] = False
+    good = {t for t in cands if uses_ok[t]}
+    if not good:
+        return fnode
+
+    class Sub(ast.NodeTransformer):
+        def visit_Subscript(self, node):
+            self.generic_visit(node)
+
+            def rep(e):
+                if isinstance(e, ast.Name) and e.id in good and cands[e.id][0] == "slice":
+                    return _copy.deepcopy(_slice_of_call(cands[e.id][1].value))
+                return e
+            if isinstance(node.slice, ast.Tuple):
+                node.slice = ast.Tuple(elts=[rep(e) for e in node.slice.elts], ctx=ast.Load())
+            else:
+                node.slice = rep(node.slice)
+            return node
+
+        def visit_Call(self, node):
+            self.generic_visit(node)
+            kws = []
+            for k in node.keywords:
+                if k.arg is None and isinstance(k.value, ast.Name) and k.value.id in good and cands[k.value.id][0] == "dict":
+                    kws += [ast.keyword(arg=a, value=_copy.deepcopy(v)) for a, v in _dict_keywords(cands[k.value.id][1].value)]
+                else:
+                    kws.append(k)
+            node.keywords = kws
+            return node
+
+        def visit_Assign(self, node):
+            if any(node is cands[t][1] for t in good):
+                return None
+            return self.generic_visit(node)
+    out = Sub().visit(fnode)
+    ast.fix_missing_locations(out)
+    return out
+
+
+def _helper_parts(hnode):
+    """(body statements without docstring and final return, returned expression or None) of a helper that returns only at
+    its end; None if it cannot be inlined"""
+    body = list(hnode.body)
+    if body and isinstance(body[0], ast.Expr) and isinstance(body[0].value, ast.Constant) and isinstance(body[0].value.value, str):
+        body = body[1:]
+    ret = None
+    if body and isinstance(body[-1], ast.Return):
+        ret = body[-1].value
+        body = body[:-1]
+    for st in body:
+        for n in ast.walk(st):
+            if isinstance(n, (ast.Return, ast.Yield, ast.YieldFrom, ast.Global, ast.Nonlocal, ast.FunctionDef, ast.Lambda,
+                              ast.ClassDef)):
+                return None
+    a = hnode.args
+    if a.vararg or a.kwarg or a.posonlyargs:
+        return None
+    return body, ret
+
+
+class _Rename(ast.NodeTransformer):
+    def __init__(self, table):
+        self.table = table
+
+    def visit_Name(self, node):
+        if node.id in self.table:
+            return ast.copy_location(ast.Name(id=self.table[node.id], ctx=node.ctx), node)
+        return node
+
+
+def inline_helpers(fnode, helpers, ruled, depth=4):
+    """statements that call a helper (`x = h(..)`, `a, b = h(..)`, `return h(..)`, `h(..)`) are replaced by its body;
+    `ruled(call, stmt)` says that a rule of the vocabulary already knows the call"""
+    if not helpers or depth == 0:
+        return fnode
+    counter = [0]
+    changed = [False]
+
+    def expand(st):
+        call = None
+        if isinstance(st, ast.Assign) and len(st.targets) == 1 and isinstance(st.value, ast.Call):
+            call = st.value
+        elif isinstance(st, ast.Return) and isinstance(st.value, ast.Call):
+            call = st.value
+        elif isinstance(st, ast.Expr) and isinstance(st.value, ast.Call):
+            call = st.value
+        if call is None:
+            return None
+        key = ast.unparse(call.func)
+        if key not in helpers or ruled(call, st):
+            return None
+        hnode, _src = source_ast(helpers[key])
+        parts = _helper_parts(hnode)
+        if parts is None:
+            return None
+        body, ret = parts
+        bound = key.startswith("self.")
+        try:
+            norm = normalise_call(call, helpers[key], bound, "h")
+        except Untranslatable:
+            return None
+        counter[0] += 1
+        prefix = "%s_%d_" % (hnode.name.strip("_"), counter[0])
+        cnt = _bound_names(hnode)
+        table = {n: prefix + n for n in cnt if not (bound and n == "self")}
+        out = []
+        for kw in norm.keywords:
+            if bound and kw.arg == "self":
+                continue
+            out.append(ast.Assign(targets=[ast.Name(id=table[kw.arg], ctx=ast.Store())], value=kw.value))
+        ren = _Rename(table)
+        out += [ren.visit(_copy.deepcopy(b)) for b in body]
+        rv = ren.visit(_copy.deepcopy(ret)) if ret is not None else ast.Constant(value=None)
+        if isinstance(st, ast.Assign):
+            out.append(ast.Assign(targets=st.targets, value=rv))
+        elif isinstance(st, ast.Return):
+            out.append(ast.Return(value=rv))
+        for o in out:
+            ast.copy_location(o, st)
+            for sub in ast.walk(o):
+                if not hasattr(sub, "lineno"):
+                    ast.copy_location(sub, st)
+                else:
+                    sub.lineno = st.lineno
+        changed[0] = True
+        return out
+
+    def walk(stmts):
+        res = []
+        for st in stmts:
+            rep = expand(st)
+            if rep is not None:
+                res += rep
+                continue
+            for f in ("body", "orelse", "finalbody"):
+                if hasattr(st, f) and isinstance(getattr(st, f), list) and not isinstance(st, (ast.FunctionDef, ast.ClassDef)):
+                    setattr(st, f, walk(getattr(st, f)))
+            if isinstance(st, ast.Try):
+                for h in st.handlers:
+                    h.body = walk(h.body)
+            res.append(st)
+        return res
+    fnode.body = walk(fnode.body)
+    ast.fix_missing_locations(fnode)
+    if changed[0]:
+        return inline_helpers(fnode, helpers, ruled, depth - 1)
+    return fnode
 
 
 def check_params(fn, names):
@@ -657,8 +937,19 @@ class Translator2T(Translator2W):
             self._handlers.pop()
 
     # ------------------------------------------------------------------------------------------ functions
+    def _ruled(self, call, st):
+        c = _norm_kw(_copy.deepcopy(call))
+        if any(match(pat, c, {}) for pat, _t, _f in self.r.expr):
+            return True
+        s2 = _norm_kw(_copy.deepcopy(st))
+        return any(match(pat, s2, {}) for pat, _r, _t in self.r.stmt) or any(match(pat, s2, {}) for pat, _t in self.r.guard)
+
     def function_node(self, node, arg_names, ind=2, allow_unused=()):
+        node = _copy.deepcopy(node)
+        if getattr(self.r, "normalise", False):
+            node = inline_helpers(node, self.r.helpers, self._ruled)
+            node = inline_temporaries(node)
         if self.r.callees:
-            node = _Callees(self.r.callees).visit(_copy.deepcopy(node))
+            node = _Callees(self.r.callees).visit(node)
             ast.fix_missing_locations(node)
         return Translator2W.function_node(self, node, arg_names, ind, allow_unused)
